@@ -170,6 +170,12 @@ func ParseISO8601Duration(from string) (years int, months int, days int, duratio
 		i++
 	}
 
+	// Whatever follows the last designator (digits without a unit, or any other character) is not part of a duration
+	if start != l {
+		err = errors.New("unsupported ISO8601 duration format: " + from)
+		return
+	}
+
 	return
 }
 
